@@ -15,6 +15,8 @@
                  obs   = per recorded read: dec query index; dec lo; dec hi; dec #fields; rendered result.
      e_oracle = e_agree = C14_hammer_ok (at least one read; every read matches some prefix of the
                 writer's calls within [lo, hi]).
+   kind "nihammer": input = ["nihammer"; note; then as "conc"]; obs as "conc".  e_oracle = e_agree =
+                 C14_ni_ok on the nick named by the first call.
    (std++ and GoBytes notations clash, hence the Tracker* modules are Required, not Imported.) *)
 From Verif Require Import EntryBase.
 From Verif Require TrackerSpec TrackerImpl TrackerObs TrackerAlias TrackerC14 LinCheck.
@@ -76,6 +78,7 @@ Definition t_alias : bytes := [97; 108; 105; 97; 115]%N.
 Definition t_conc : bytes := [99; 111; 110; 99]%N.
 Definition t_lin : bytes := [108; 105; 110]%N.
 Definition t_hammer : bytes := [104; 97; 109; 109; 101; 114]%N.
+Definition t_nihammer : bytes := [110; 105; 104; 97; 109; 109; 101; 114]%N.
 
 (* ---------- alias ---------- *)
 Record c14alias := { ca_me : bytes; ca_U : TrackerObs.universe; ca_ops : list TrackerSpec.op }.
@@ -263,6 +266,19 @@ Definition hammer_ok (c : c14hammer) (o : list bytes) : bool :=
   | None => false
   end.
 
+(* ---------- nihammer: the format of conc after a note field; the last program is the epilogue ---------- *)
+Definition ni_nick (c : c14conc) : bytes :=
+  match concat (cn_progs c) with
+  | TrackerSpec.ONickInfo n _ _ _ :: _ => n
+  | TrackerSpec.OGetNick n :: _ => n
+  | _ => []
+  end.
+Definition nihammer_ok (c : c14conc) (o : list bytes) : bool :=
+  match dec_hist (concat (cn_progs c)) o with
+  | Some h => negb (Nat.eqb (length h) 0) && TrackerC14.C14_ni_ok (cn_me c) (cn_setup c) (ni_nick c) h
+  | None => false
+  end.
+
 (* ---------- the entry ---------- *)
 Definition model_C14 (i : list bytes) : list bytes :=
   match i with
@@ -274,6 +290,7 @@ Definition model_C14 (i : list bytes) : list bytes :=
         end
       else if beq k t_conc then [t_lin]
       else if beq k t_hammer then [t_lin]
+      else if beq k t_nihammer then [t_lin]
       else [tag_bad]
   | [] => [tag_bad]
   end.
@@ -295,6 +312,14 @@ Definition oracle_C14 (i o : list bytes) : bool :=
         match decode_hammer r with
         | Some c => hammer_ok c o
         | None => false
+        end
+      else if beq k t_nihammer then
+        match r with
+        | _note :: r' => match decode_conc r' with
+                         | Some c => nihammer_ok c o
+                         | None => false
+                         end
+        | [] => false
         end
       else false
   | [] => false
